@@ -15,10 +15,10 @@ CHUNK = 4
 RECHECK_MOD = 53
 PROBES = ['cut_in_header', 'cut_in_threadmap', 'cut_in_stackshot_scan', 'cut_in_chunkhdr', 'cut_in_record',
           'cut_at_record_boundary', 'cut_in_block', 'cut_in_pad', 'eio_fired', 'count_limit', 'v2', 'v3',
-          'cut_in_event_tag_scan', 'cli_run']
+          'cut_in_event_tag_scan', 'cli_run', 'many_chunks']
 RULE = ('one run = one simulated dump (SimKernel threads -> merged stream -> v2/v3 writer) with every cut offset '
         '0..len (thorough) or all structure boundaries +-2 plus a seeded sample (quick), each parsed through SimReader '
-        'under a read budget of 8*len+10000 calls/bytes; non-trivial = the dump holds >= 1 record and >= 1 cut landed '
+        'under a read budget of 2*len+4096 calls and 3*len+4096 bytes; non-trivial = the dump holds >= 1 record and >= 1 cut landed '
         'strictly inside a record or scanner region; distinct = distinct history digest (file bytes + cut list + '
         'outcomes)')
 SHAPE_MEASURE = 'distinct (container version, region of cut, outcome class) triples'
@@ -37,6 +37,10 @@ def generate(rng, index, tier):
            't0': (rng.randrange(1, 1 << 40) << 8) | rng.randrange(1, 256)}
     nrec = sum(len(p) for p in per)
     scn['writer'] = worlds.gen_writer(rng, version, threads, nrec)
+    if version == 3 and rng.chance(0.2):
+        # a writer that flushes very often: many small (and empty) event chunks
+        scn['writer']['chunks'] = sorted(rng.randrange(0, nrec + 1) for _ in range(rng.randint(12, 40)))
+        scn['writer']['gaps'] = []
     scn['cuts'] = 'all' if tier == 'thorough' else 'sample'
     scn['cut_seed'] = rng.randrange(1 << 30)
     scn['eio'] = sorted(set(rng.randrange(1, 40 + nrec * 2) for _ in range(3)))
@@ -51,10 +55,13 @@ def _views(data, table, scn, budget=True, eio=None, deep=True):
     """Run the tool over `data`; returns dict view -> (items, exc-signature)."""
     out = {}
     n = len(data)
-    b = 8 * n + 10000 if budget else None
+    # measured on the unchanged tree: at most 1 read call per byte and < 2 bytes read per byte of input (the last block
+    # can be read twice by the aligned/unaligned Select); the allowance is 2n+4096 calls and 3n+4096 bytes
+    bc = 2 * n + 4096 if budget else None
+    bb = 3 * n + 4096 if budget else None
 
     def reader():
-        return SimReader(data, budget_calls=b, budget_bytes=b, eio_at=eio)
+        return SimReader(data, budget_calls=bc, budget_bytes=bb, eio_at=eio)
     p = common.new_parser(filter_tid=scn.get('filter_tid'))
     items, exc = common.drain(lambda: p.kevents(reader()))
     out['events'] = ([common.ev_tuple(e) for e in items], type(exc).__name__ if exc else None)
@@ -66,7 +73,14 @@ def _views(data, table, scn, budget=True, eio=None, deep=True):
     out['_reads'] = (rd.calls, rd.bytes_read, rd.eio_fired)
     if deep:
         p = common.new_parser(filter_tid=scn.get('filter_tid'))
-        items, exc = common.drain(lambda: p.traces(reader(), table))
+        snaps = []
+
+        def pull():
+            for t in p.traces(reader(), table):
+                snaps.append((t, len(t.ktraces), str(t)))      # what was reported, at the moment it was reported
+                yield t
+        items, exc = common.drain(pull)
+        out['_changed_later'] = [(i, n0, len(t.ktraces)) for i, (t, n0, s0) in enumerate(snaps) if len(t.ktraces) != n0 or str(t) != s0]
         texts = []
         for t in items:
             try:
@@ -130,6 +144,11 @@ def execute(scn):
         return {'violations': viols, 'digest': digest_of(scn, ['full-hang']), 'stats': stats, 'nontrivial': False,
                 'shape': 'v%d/full/hang' % ver}
     hist.append(['full', {k: [len(v[0]), v[1]] for k, v in full.items() if not k.startswith('_')}])
+    if full.get('_changed_later'):
+        viols.append({'tag': 'reported-trace-changed-later', 'sig': 'v%d' % ver,
+                      'detail': 'traces already yielded were modified while the rest of the dump was read: (index, events then, events at the end) %r' % (full['_changed_later'][:3],)})
+    if len(scn['writer'].get('chunks', [])) >= 12:
+        bump('probe:many_chunks')
     shapes = set()
     cuts = _pick_cuts(scn, layout, n)
     inside = 0
@@ -158,6 +177,8 @@ def execute(scn):
         bump('fault:truncate')
         try:
             got = _views(data[:k], table, scn, deep=deep)
+            if got.get('_changed_later'):
+                viols.append({'tag': 'reported-trace-changed-later', 'sig': 'v%d' % ver, 'detail': 'cut at %d: %r' % (k, got['_changed_later'][:3])})
         except SimBudgetExceeded as e:
             viols.append({'tag': 'nonterminating', 'sig': 'v%d:%s' % (ver, region),
                           'detail': 'cut at %d of %d (%s+%d): %s' % (k, n, region, off, e)})
